@@ -19,7 +19,8 @@ from vk.ddmin import minimise_text
 LEVEL = 'exploration'
 RULE = ('inputs: token lists of corpus-like generated programs with a line comment (+ break) or a block comment '
         '(single- and multi-line) placed between every pair of adjacent tokens in turn (quick: every 2nd slot), plus '
-        'random multi-placements and the corpus; a case = one text; non-trivial = at least one comment was attached '
+        'random multi-placements, the corpus, and reserved words as property names with a comment / line break on either '
+        'side x 9 continuations; a case = one text; non-trivial = at least one comment was attached '
         'to a node; distinct by text.')
 ASSUMPTIONS = ['not every source comment has to be captured (documented limitation): dropped comments are counted, not '
                'flagged; where a comment is re-emitted is free as long as the re-parse agrees',
